@@ -218,9 +218,15 @@ def _type(e, st, node, x):
         kt = KindTag(a.kind)
         kt.cls = 'list' if a.meta.get('list') else 'ndarray'
         return kt
+    if isinstance(a, RecV):
+        kt = KindTag('object')
+        kt.cls = a.cls
+        return kt
     v = to_z3(x)
     if is_sym(v):
-        return KindTag('int' if z3.is_int(v) else 'real' if z3.is_real(v) else 'bool')
+        kt = KindTag('int' if z3.is_int(v) else 'real' if z3.is_real(v) else 'bool')
+        kt.cls = 'scalar'
+        return kt
     raise Unsupported('type()')
 
 
@@ -264,6 +270,19 @@ def _hasattr(e, st, node, o, name):
     if isinstance(v, Tup) and name.s == '__len__':
         return True
     return False
+
+
+@prim('_is_iterable')
+def _is_iterable_prim(e, st, node, x):
+    """enspara.ra.ra._is_iterable: iterable and not a string (arrays, lists, tuples: yes; numbers: no)"""
+    v = e.deref(st, x)
+    if isinstance(v, (Arr, Tup, RArr)):
+        return True
+    if isinstance(v, Str):
+        return False
+    if is_sym(to_z3(v)) or isinstance(v, (int, float)):
+        return False
+    raise Unsupported('_is_iterable(%r)' % (v,))
 
 
 @prim('callable')
